@@ -1633,6 +1633,9 @@ impl<R: Reg> Interp<R> {
         for c in 0..R::N {
             if !R::has_serial(c) {
                 let (k, n) = R::comp_kind(c);
+                if k == ledger::Kind::Odd {
+                    continue; // plain data without a destructor: nothing to count
+                }
                 let want = counts.get(&(k as u8, n)).copied().unwrap_or(0);
                 let have = ledger::live_count(k, n);
                 if want != have && on_count {
@@ -1681,6 +1684,9 @@ impl<R: Reg> Interp<R> {
             for c in 0..R::N {
                 if !R::has_serial(c) {
                     let (k, n) = R::comp_kind(c);
+                    if k == ledger::Kind::Odd {
+                        continue;
+                    }
                     let have = ledger::live_count(k, n);
                     if have != 0 {
                         r = Err(Fail { props: &["C04"], oracle: "final-drop-count", msg: format!("{have} values of component {c} ({k:?}) alive after every world was dropped"), step });
